@@ -14,6 +14,7 @@ EXPLANATION = (
     "builtins the library uses (=../2, all/3, clause/2, sort/2, call/1) are registered; (L4) sort/2 orders numbers by value: the C15 rules O0, O1 "
     "(comparator-chain discipline of struct_cmp, in particular its number tier), O5 (sort/2 uses key=StructSort on a duplicate-free collection) and "
     "O6 (tier table) are re-run here and must hold. The behaviour for all rule sets is not decided beyond this chain."
+    " Added after seed round 7: L4 clause/2 with a bound head hands every child of the define node to to_clause, unfiltered."
 )
 TECHNIQUE = "static analysis: clause-shape reader for the Prolog library + dependency on the C15 ordering rules"
 LEVEL_TEXT = EXPLANATION
